@@ -6895,7 +6895,14 @@ impl StrandForkRecord {
         for _ in 0..writer_count {
             writer_heads.push(cursor.read_writer_head_key()?);
         }
-        let writer_heads = canonical_writer_heads(&writer_heads);
+        // The writer stores the heads in canonical order; any other order is a
+        // second byte string for the same record and must be rejected rather
+        // than normalised (the record digest is taken over these bytes).
+        if canonical_writer_heads(&writer_heads) != writer_heads {
+            return Err(WalDecodeError::NonCanonicalWriterHeads {
+                record_kind: "strand-fork",
+            });
+        }
         let retention_posture_digest = cursor.read_hash()?;
         let issuer_evidence_digest = cursor.read_hash()?;
         let idempotency_key_digest = cursor.read_optional_hash()?;
@@ -10050,6 +10057,12 @@ pub enum WalDecodeError {
     #[error("non-canonical causal parent receipts in {record_kind} WAL payload")]
     NonCanonicalCausalParentReceipts {
         /// Retained record family whose parent set was not canonical.
+        record_kind: &'static str,
+    },
+    /// Writer heads were not in canonical order.
+    #[error("non-canonical writer heads in {record_kind} WAL payload")]
+    NonCanonicalWriterHeads {
+        /// Retained record family whose writer-head list was not canonical.
         record_kind: &'static str,
     },
 }
